@@ -1,4 +1,177 @@
+/-
+C10 — navigation between words, senses and synsets is referentially faithful; translation
+goes through the ILI exactly.  Theorems over `Model/Api.lean` for every database.
+-/
 import WnVerif.Model.Api
+import WnVerif.Lemmas.DbAux
 namespace WnVerif.Props.C10
-theorem placeholder_true : True := trivial
+open WnVerif.Db
+
+/-! ### word ↔ sense ↔ synset -/
+
+/-- every sense listed by `word.senses()` is a stored sense declared under that entry, owned by
+a lexicon in scope -/
+theorem C10_word_senses_declared (db : Db) (w : Wordnet) (x : WordData) (s : SenseData)
+    (h : s ∈ wordSenses db w x) :
+    ∃ row ∈ db.senses, row.entry = x.rowid ∧ row.lex ∈ entityLexids db w x.lex ∧ senseData db row = some s := by
+  unfold wordSenses entrySenses at h
+  simp only [List.mem_filterMap] at h
+  obtain ⟨r, hr, hs⟩ := h
+  rw [mem_sortBy] at hr
+  simp only [List.mem_filter, Bool.and_eq_true, inLex, List.contains_iff_mem, beq_iff_eq] at hr
+  exact ⟨r, hr.1, hr.2.1, hr.2.2, hs⟩
+
+/-- … and conversely every stored sense of the entry owned by a lexicon in scope is listed -/
+theorem C10_sense_in_word_senses (db : Db) (w : Wordnet) (x : WordData) (row : RSense) (s : SenseData)
+    (hrow : row ∈ db.senses) (he : row.entry = x.rowid) (hl : row.lex ∈ entityLexids db w x.lex)
+    (hs : senseData db row = some s) : s ∈ wordSenses db w x := by
+  unfold wordSenses entrySenses
+  simp only [List.mem_filterMap]
+  refine ⟨row, ?_, hs⟩
+  rw [mem_sortBy]
+  simp only [List.mem_filter, Bool.and_eq_true, inLex, List.contains_iff_mem, beq_iff_eq]
+  exact ⟨hrow, he, hl⟩
+
+theorem C10_synset_senses_declared (db : Db) (w : Wordnet) (x : SynsetData) (s : SenseData)
+    (h : s ∈ synsetSenses db w x) :
+    ∃ row ∈ db.senses, row.synset = x.rowid ∧ row.lex ∈ entityLexids db w x.lex ∧ senseData db row = some s := by
+  unfold synsetSenses synsetMembers at h
+  simp only [List.mem_filterMap] at h
+  obtain ⟨r, hr, hs⟩ := h
+  rw [mem_sortBy] at hr
+  simp only [List.mem_filter, Bool.and_eq_true, inLex, List.contains_iff_mem, beq_iff_eq] at hr
+  exact ⟨r, hr.1, hr.2.1, hr.2.2, hs⟩
+
+theorem C10_sense_in_synset_senses (db : Db) (w : Wordnet) (x : SynsetData) (row : RSense) (s : SenseData)
+    (hrow : row ∈ db.senses) (he : row.synset = x.rowid) (hl : row.lex ∈ entityLexids db w x.lex)
+    (hs : senseData db row = some s) : s ∈ synsetSenses db w x := by
+  unfold synsetSenses synsetMembers
+  simp only [List.mem_filterMap]
+  refine ⟨row, ?_, hs⟩
+  rw [mem_sortBy]
+  simp only [List.mem_filter, Bool.and_eq_true, inLex, List.contains_iff_mem, beq_iff_eq]
+  exact ⟨hrow, he, hl⟩
+
+/-- the observable sense carries the ids of the entry and synset rows it references -/
+theorem C10_sense_data_ids (db : Db) (row : RSense) (s : SenseData) (h : senseData db row = some s) :
+    s.rowid = row.rowid ∧ s.id = row.id ∧ s.lex = row.lex ∧
+    (∃ e ∈ db.entries, e.rowid = row.entry ∧ e.id = s.entryId) ∧
+    (∃ y ∈ db.synsets, y.rowid = row.synset ∧ y.id = s.synsetId) := by
+  unfold senseData at h
+  split at h
+  · rename_i e ss he hss
+    simp at h; subst h
+    have h1 := List.find?_some he
+    have h2 := List.find?_some hss
+    simp only [beq_iff_eq] at h1 h2
+    exact ⟨rfl, rfl, rfl, ⟨e, List.mem_of_find?_eq_some he, h1, rfl⟩, ⟨ss, List.mem_of_find?_eq_some hss, h2, rfl⟩⟩
+  · simp at h
+
+/-- `Sense.word()` re-queries by *id* within the Wordnet's lexicons: what it returns is an entry
+with the declared id (owned by one of the Wordnet's lexicons when these are restricted) -/
+theorem C10_sense_word_by_id (db : Db) (w : Wordnet) (s : SenseData) (x : WordData)
+    (h : senseWord db w s = some x) (hne : s.entryId ≠ "") :
+    x.id = s.entryId ∧ (w.lexids ≠ [] → x.lex ∈ w.lexids) := by
+  unfold senseWord wordById at h
+  have hm := List.mem_of_mem_head? h
+  unfold findEntries at hm
+  simp only [List.mem_filterMap] at hm
+  obtain ⟨e, he, hx⟩ := hm
+  rw [mem_sortBy] at he
+  simp only [List.mem_filter, Bool.and_eq_true] at he
+  have hid : e.id = s.entryId := by
+    have := he.2.1.1.1
+    simp [hne] at this
+    exact this
+  split at hx
+  · simp at hx
+  · simp at hx; subst hx
+    refine ⟨hid, ?_⟩
+    intro hl
+    have := he.2.2
+    unfold inLexOrAll at this
+    have hem : w.lexids.isEmpty = false := by simpa [List.isEmpty_iff] using hl
+    simpa [hem] using this
+
+/-- kernel-checked witness of known finding F5: with two lexicons in scope that reuse an entry
+id, `sense.word()` of the second lexicon's sense is the *first* lexicon's word -/
+def twoVersions : Db :=
+  { lexicons := [⟨1, "a", "A", "en", "e", "l", "1", none, none, none, none⟩, ⟨2, "a", "A", "en", "e", "l", "2", none, none, none, none⟩]
+    entries := [⟨1, "e", 1, "n", none⟩, ⟨2, "e", 2, "n", none⟩]
+    forms := [⟨1, none, 1, 1, "cat", none, none, 0⟩, ⟨2, none, 2, 2, "dog", none, none, 0⟩]
+    synsets := [⟨1, "s", 1, none, "n", true, none, none⟩, ⟨2, "s", 2, none, "n", true, none, none⟩]
+    senses := [⟨1, "n", 1, 1, 0, 1, 0, true, none⟩, ⟨2, "n", 2, 2, 0, 2, 0, true, none⟩] }
+
+theorem C10_sense_word_two_versions_counterexample :
+    let w : Wordnet := { lexids := [1, 2], expids := [], defaultMode := false }
+    (senseWord twoVersions w ⟨"n", "e", "s", 2, 2⟩).map (·.rowid) = some 1 := by decide
+
+/-! ### translation -/
+
+/-- `synset.translate()` returns exactly the synsets of the target lexicons sharing the ILI -/
+theorem C10_translate_exact (db : Db) (x : SynsetData) (lexicon lang : Option String) (i : String)
+    (hi : x.ili = some i) (hne : i ≠ "") (w : Wordnet) (hw : mkWordnet db lexicon lang none = some w) (y : SynsetData) :
+    (∃ ys, synsetTranslate db x lexicon lang = some ys ∧ y ∈ ys) ↔
+      ∃ row ∈ db.synsets, iliIdOf db row.ili = some i ∧ inLexOrAll w.lexids row.lex = true ∧ y = synsetData db row := by
+  unfold synsetTranslate
+  simp only [hi, hw, Option.map_some]
+  have hne' : (i == "") = false := by simpa using hne
+  simp only [hne', Bool.false_eq_true, if_false, Option.some.injEq, exists_eq_left']
+  unfold findSynsets
+  simp only [List.isEmpty_nil, if_true, List.mem_map, List.mem_filter, Bool.and_eq_true, Bool.true_and]
+  constructor
+  · rintro ⟨row, ⟨hrow, hok, hl⟩, rfl⟩
+    refine ⟨row, hrow, ?_, hl, rfl⟩
+    simp only [hne', Bool.false_eq_true, if_false] at hok
+    split at hok
+    · rename_i j hj
+      rw [hj]; simp at hok; rw [hok]
+    · simp at hok
+  · rintro ⟨row, hrow, hili, hl, rfl⟩
+    refine ⟨row, ⟨hrow, ?_, hl⟩, rfl⟩
+    simp [hne', hili]
+
+/-- a synset without an ILI (or with only a proposed one: its `ili` is `none`) translates to nothing -/
+theorem C10_translate_no_ili (db : Db) (x : SynsetData) (lexicon lang : Option String) (h : x.ili = none) :
+    synsetTranslate db x lexicon lang = some [] := by
+  unfold synsetTranslate; rw [h]
+
+/-- every translation carries the same ILI -/
+theorem C10_translate_same_ili (db : Db) (x : SynsetData) (lexicon lang : Option String) (ys : List SynsetData)
+    (h : synsetTranslate db x lexicon lang = some ys) (y : SynsetData) (hy : y ∈ ys) : y.ili = x.ili ∧ x.ili ≠ none := by
+  unfold synsetTranslate at h
+  split at h
+  · simp at h; subst h; simp at hy
+  · rename_i i hi
+    split at h
+    · simp at h; subst h; simp at hy
+    · rename_i hne
+      cases hw : mkWordnet db lexicon lang none with
+      | none => rw [hw] at h; simp at h
+      | some w =>
+        have := (C10_translate_exact db x lexicon lang i hi (by simpa using hne) w hw y).mp ⟨ys, by
+          unfold synsetTranslate; simp only [hi]; simp only [hne]; rw [hw] at h ⊢; exact h, hy⟩
+        obtain ⟨row, _, hili, _, rfl⟩ := this
+        simp [synsetData, hili, hi]
+
+/-- translation is symmetric: if `y` (of lexicon selection `T`) is a translation of `x`, and `x` is the
+observation of a stored synset of selection `S`, then `x` is a translation of `y` into `S` -/
+theorem C10_translate_symmetric (db : Db) (x y : SynsetData) (lexT langT lexS langS : Option String)
+    (ys : List SynsetData) (h : synsetTranslate db x lexT langT = some ys) (hy : y ∈ ys)
+    (wS : Wordnet) (hwS : mkWordnet db lexS langS none = some wS)
+    (xrow : RSynset) (hx : xrow ∈ db.synsets) (hxd : x = synsetData db xrow) (hxl : inLexOrAll wS.lexids xrow.lex = true) :
+    ∃ xs, synsetTranslate db y lexS langS = some xs ∧ x ∈ xs := by
+  obtain ⟨hyi, hxn⟩ := C10_translate_same_ili db x lexT langT ys h y hy
+  cases hxi : x.ili with
+  | none => exact absurd hxi hxn
+  | some i =>
+    have hne : i ≠ "" := by
+      intro e
+      unfold synsetTranslate at h
+      simp [hxi, e] at h
+      subst h; simp at hy
+    refine (C10_translate_exact db y lexS langS i (by rw [hyi, hxi]) hne wS hwS x).mpr ⟨xrow, hx, ?_, hxl, hxd⟩
+    have : (synsetData db xrow).ili = some i := by rw [← hxd]; exact hxi
+    simpa [synsetData] using this
+
 end WnVerif.Props.C10
